@@ -16,7 +16,7 @@ ID = "C08"
 TECHNIQUE = ("Hypothesis-generated (Hamiltonian, time-independent tensor, grid, dense steps, mode, number of incremental "
              "steps, RWA, state) against semigroup/trace/Hermiticity identities, direct propagation and expm of the "
              "GKSL Liouvillian")
-LEVEL = ("For generated Lindblad generators (operator/tensor form; with RWA: block-preserving Hamiltonians and projector "
+LEVEL = ("(Also: apply() with equidistant lists of grid times; identity, semigroup and agreement with the outside result when the calculated superoperator is used inside eigenbasis_of(H).) For generated Lindblad generators (operator/tensor form; with RWA: block-preserving Hamiltonians and projector "
          "jump operators) and secular/non-secular Redfield tensors of generated aggregates: U[0] is exactly the "
          "identity; U[i+j] = U[i]U[j] for every pair on the grid; trace and Hermiticity preservation at every time; "
          "apply(t_i, rho) equals ReducedDensityMatrixPropagator(...).propagate(rho, Nref=dense) and (Lindblad) "
